@@ -292,6 +292,19 @@ func expand(c Case) Case {
 			c.Input = b.String()
 		case "call-wide-array":
 			c.Input = "pipeline P(in int[] x, out int y,){ return (y = 1,) }\ncall P(x = [" + strings.Repeat("1,", n) + "1],)"
+		case "layered-pipelines":
+			// a tower of pipelines, each calling the one below twice under
+			// two ids: 2^n call paths from a source that is linear in n
+			var b strings.Builder
+			b.WriteString("stage LEAF(in int x, out int y, src py \"leaf\",)\n")
+			for i := 0; i < n; i++ {
+				callee := "LEAF"
+				if i > 0 {
+					callee = fmt.Sprintf("L%d", i-1)
+				}
+				fmt.Fprintf(&b, "pipeline L%d(in int x, out int y,)\n{\n    call %s as A(x = self.x,)\n    call %s as B(x = A.y,)\n    return (y = B.y,)\n}\n", i, callee, callee)
+			}
+			c.Input = b.String()
 		case "struct-chain":
 			var b strings.Builder
 			for i := 0; i < n; i++ {
@@ -399,7 +412,7 @@ func main() {
 		}
 		r.Rule = fmt.Sprintf("(A1) every token sequence of length <=%d over an %d-token alphabet (keywords, punctuation, numeric edge literals around 64-bit limits, every string escape form, invalid UTF-8) through ParseSourceBytes, UncheckedParse, ParseValExp and FormatSrcBytes; "+
 			"(A2) for every .mro file of the repository's fixtures: every single-token deletion, duplication, every byte-prefix truncation (step 7 bytes in quick), every replacement of a token by each alphabet token (files <= 3 KB); "+
-			"(A3) every string slot x {empty, blank, quote, backslash, newline, NUL} and numeric slot x edge list; (A4) nesting / size series 10..10^5 in isolated subprocesses; (A7) growth: ten wide input shapes (array / map literal on one line and one element per line, thousands of stages on one line and on separate lines, comments, a long string, many parameters) parsed at size n and 4n - the larger may take at most 12 times as long (best of 3-5 runs each; only judged when it needs more than three seconds); (A5) include graphs (self, 2- and 3-cycles with and without declarations, diamond, missing, nested dirs); (A6) call structure through what mro check does (compile, then the call graph of the top-level call): cycles of 1-3 pipelines with and without inputs and top-level call, and every top-level call form {call, map call, local, preflight, volatile} x callee {stage, pipeline, undefined, a struct} x 13 binding forms (wildcards, self and call references, splits, duplicates, unknown and missing parameters) and modifiers. "+
+			"(A3) every string slot x {empty, blank, quote, backslash, newline, NUL} and numeric slot x edge list; (A4) nesting / size series 10..10^5 in isolated subprocesses, among them a tower of 10 / 100 pipelines each calling the one below twice under two ids (2^n call paths); (A7) growth: ten wide input shapes (array / map literal on one line and one element per line, thousands of stages on one line and on separate lines, comments, a long string, many parameters) parsed at size n and 4n - the larger may take at most 12 times as long (best of 3-5 runs each; only judged when it needs more than three seconds); (A5) include graphs (self, 2- and 3-cycles with and without declarations, diamond, missing, nested dirs); (A6) call structure through what mro check does (compile, then the call graph of the top-level call): cycles of 1-3 pipelines with and without inputs and top-level call, and every top-level call form {call, map call, local, preflight, volatile} x callee {stage, pipeline, undefined, a struct} x 13 binding forms (wildcards, self and call references, splits, duplicates, unknown and missing parameters) and modifiers. "+
 			"violation = panic, process death, no result in 90 s, or an error without a source position. distinct = distinct (entry point, input); non-trivial = input is not accepted", maxLen, len(alphabet))
 		r.Set("alphabet", len(alphabet))
 		r.RunWorkers(0)
@@ -645,10 +658,13 @@ call P(m = [%s, 1],)`,
 	if r.Thorough() {
 		sizes = append(sizes, 1000000)
 	}
-	for _, gen := range []string{"brackets", "maps", "call-brackets", "parens", "comment-lines", "long-string", "many-params", "struct-chain"} {
+	for _, gen := range []string{"brackets", "maps", "call-brackets", "parens", "comment-lines", "long-string", "many-params", "struct-chain", "layered-pipelines"} {
 		for _, n := range sizes {
 			if gen == "struct-chain" && n > 10000 {
 				continue
+			}
+			if gen == "layered-pipelines" && n > 100 {
+				continue // no top-level call: only the declarations are compiled
 			}
 			if gen == "many-params" && n > 100000 {
 				continue
